@@ -29,8 +29,13 @@ claim("C03",
       "A failed member placement aborts the gang attempt and every failed node-set attempt is rolled back to its checkpoint; every Commit outside the framework is dominated by the success flag of the attempt that produced/received that statement, and success implies AllocateJob or JobSolver.Solve succeeded; an allocate attempt succeeds only if the gang is not half-nominated or was converted; the solver reports solved only with IsGangSatisfied and progress; gang tests iterate all pod sets; 'evict one pod' is chosen only above minAvailable by active-allocated counts; victims come only from GetTasksToEvict through EvictAllPreemptees. Counting over arbitrary partitions is not decided.",
       NOTE)
 
+claim("C06",
+      "per-path return facts of the victim-filter closures and the min-runtime hooks, registry resolution of registered plugin functions and solver validators, guard dominance of candidate insertion, loop must-pass-through for scenario validators, provenance of the Statement through the solver, who-may-call for immediate evictions, edge facts of the common-ancestor scan",
+      "Preempt/consolidation victim filters accept only preemptible, other, active jobs (preempt: strictly lower priority, same queue, plugin filter); reclaim candidates are of another queue, pass the plugin filter and the victims queue filters non-preemptible jobs; the min-runtime plugin registers all four hooks, rejects protected non-elastic victims, checks every protected elastic victim against minAvailable and its common-ancestor index only advances while queue paths agree; each action passes its validator to the solver and a scenario is solved only behind it; evictions and placement share the scenario's Statement; Session.Evict is used only by stale-gang eviction; consolidation rejects scenarios with a still-evicted victim; the start time is refreshed unless the workload already holds resources. Time arithmetic is not decided.",
+      NOTE)
+
 NA = {
     "C15": "quantifies over infinite executions of a closed system (lasso freedom); no static shape of the code settles it. Its three guards (strict saturation comparison with multiplier >= 1, strictly-lower priority for preempt, consolidation only when all victims are re-placed) are decided as clauses of C07 and C06.",
 }
-for _p in ["C04","C05","C06","C07","C08","C09","C10","C11","C12","C16","C17","C18","C19","C20"]:
+for _p in ["C04","C05","C07","C08","C09","C10","C11","C12","C16","C17","C18","C19","C20"]:
     NA.setdefault(_p, "check under construction in this session (see DESIGN.md §4 for the planned static obligations); not claimed until the check exists")
